@@ -146,6 +146,9 @@ def oracle_C11(result):
                                 f"rejected with TypeError: {r}", i))
         if op["op"] == "ClassUse" and out["k"] != "Unbound":
             bad.append(("C11:unbound", f"step {i}: using a signal through the class ({op['how']}) -> {out}", i))
+        if op["op"] == "Drop" and out.get("stale"):
+            bad.append(("C11:stale-channel", f"step {i}: after owner instance {op['i']} had been collected, a new "
+                        f"instance was handed one of the dead instance's bound signals", i))
         if op["op"] == "Drop" and not out.get("collected"):
             bad.append(("C11:owner-kept-alive", f"step {i}: owner instance {op['i']} is still alive after its last "
                         f"reference was dropped", i))
